@@ -194,7 +194,9 @@ class BlockOption(TypedOption):
         def is_valid_for_payload_size(self, payloadsize):
             if self.is_bert:
                 if self.more:
-                    return payloadsize % 1024 == 0
+                    # one or more whole blocks; a block that is not the last
+                    # one is never empty
+                    return payloadsize > 0 and payloadsize % 1024 == 0
                 return True
             else:
                 if self.more:
